@@ -313,6 +313,20 @@ fn mutations(valid: &[u8], rng: &mut Rng, json: bool, thorough: bool) -> Vec<(&'
         out.push(("json-null-bytes", b"{\"Text\":\"a\\u0000b\"}\0\0".to_vec()));
         out.push(("json-escapes", b"{\"Text\":\"\\ud800\"}".to_vec()));
     }
+    if cfg!(miri) {
+        // the interpreter is four orders of magnitude slower: a sample of every mutation class
+        let mut kept: Vec<(&'static str, Vec<u8>)> = vec![];
+        let mut seen: BTreeMap<&'static str, usize> = BTreeMap::new();
+        rng.shuffle(&mut out);
+        for (k, b) in out {
+            let n = seen.entry(k).or_insert(0);
+            if *n < 2 {
+                *n += 1;
+                kept.push((k, b));
+            }
+        }
+        return kept;
+    }
     out
 }
 
@@ -349,7 +363,7 @@ fn run_history(rng: &mut Rng, json: bool, thorough: bool, report: &Arc<Mutex<Rep
     let wire = if json { "json" } else { "bincode" };
     let mut outstanding: Vec<Outstanding> = vec![];
     let mut next_site = 1u32;
-    let steps = rng.range(3, 14);
+    let steps = if cfg!(miri) { rng.range(3, 5) } else { rng.range(3, 14) };
     let mut poisoned = false;
     for step in 0..steps {
         if poisoned {
